@@ -196,6 +196,81 @@ def pair_histories(tier):
     return out
 
 
+def cross_histories(tier):
+    """Every ordered pair of renderer configurations (quick: default options; thorough: every option set), plus a bare
+    Document as second party: the first renders every sentinel, then the second does. This is the quantifier's
+    'enter R1, render, exit, enter R2, render, exit' enumerated over (R1, R2)."""
+    configs = [(rid, opts) for rid in W.RENDERER_IDS for oi, opts in enumerate(W.OPTIONS[rid]) if tier == 'thorough' or oi == 0]
+    if tier != 'thorough':
+        configs.append(('Html', {'process_html_tokens': False}))
+    probes = [D.PROBES[n] for n in D.SENTINELS]
+    out = []
+    for i, (r1, o1) in enumerate(configs):
+        first = {'k': 'CTX', 'R': r1, 'opts': o1, 'exit': 'normal', 'steps': [{'k': 'RENDER', 'doc': p} for p in probes]}
+        for j, (r2, o2) in enumerate(configs):
+            rot = (i + j) % len(probes)
+            ps = probes[rot:] + probes[:rot]
+            out.append(('cross', [first, {'k': 'CTX', 'R': r2, 'opts': o2, 'exit': 'normal',
+                                          'steps': [{'k': 'RENDER', 'doc': p} for p in ps]}]))
+        out.append(('cross', [first] + [{'k': 'BARE', 'doc': p} for p in probes]))
+    return out
+
+
+def toc_histories(tier):
+    """TocRenderer's second product, r.render(r.toc), is parsed OUTSIDE any Document: enumerate every parse-phase fault
+    variant between a heading document and the table of contents."""
+    out = []
+    nb, ns = _extras('Toc', {})
+    head = {'k': 'RENDER', 'doc': D.PROBES['toc_refs']}
+    for opts in (W.OPTIONS['Toc'] if tier == 'thorough' else W.OPTIONS['Toc'][:1]):
+        variants = []
+        for tok in W.FAULT_BLOCK:
+            for placement in BLOCK_PLACEMENTS:
+                if tok != 'FaultBlockInterrupt' and placement == 'after_para':
+                    continue
+                for pos in range(nb + 1):
+                    variants.append({'kind': 'F1', 'tok': tok, 'pos': pos, 'doc': D.fault_doc(tok, placement)})
+        for tok in W.FAULT_SPAN:
+            for placement in SPAN_PLACEMENTS:
+                for pos in range(ns):
+                    variants.append({'kind': 'F2', 'tok': tok, 'pos': pos, 'doc': D.fault_doc(tok, placement)})
+        for name in sorted(D.CRASHERS):
+            variants.append({'kind': 'F3b', 'tok': None, 'pos': None, 'doc': D.CRASHERS[name] + '\n[ref]: /u\n'})
+        for tok, pls in (('RenderFaultSpan', SPAN_PLACEMENTS), ('RenderFaultBlock', BLOCK_PLACEMENTS[:-1])):
+            for placement in pls:
+                variants.append({'kind': 'F4', 'tok': tok, 'pos': 0, 'doc': D.fault_doc(tok, placement)})
+        for v in variants:
+            out.append(('toc', [{'k': 'CTX', 'R': 'Toc', 'opts': opts, 'exit': 'normal',
+                                 'steps': [head, {'k': 'TOC'}] + _fault_steps(v) + [{'k': 'TOC'}, {'k': 'RENDER', 'doc': D.PROBES['toc_doc']},
+                                                                                   {'k': 'TOC'}]}]))
+    return out
+
+
+def nest_histories(tier):
+    """Every ordered pair (outer, inner) of renderers (plus Scheme as inner): inner context opened and closed inside the
+    outer one; then ordinary, compared operations to show that everything is back to normal afterwards."""
+    out = []
+    names = D.SENTINELS
+    inners = W.RENDERER_IDS + ['Scheme']
+    k = 0
+    for outer in W.RENDERER_IDS:
+        for inner in inners:
+            for oi, opts in enumerate(W.OPTIONS[outer] if tier == 'thorough' else W.OPTIONS[outer][:1]):
+                k += 1
+                p1, p2, p3 = (D.PROBES[names[(k + j) % len(names)]] for j in range(3))
+                docs = ['(+ 1 2)'] if inner == 'Scheme' else [p2]
+                iopts = {} if inner == 'Scheme' else W.OPTIONS[inner][k % len(W.OPTIONS[inner])]
+                h = [{'k': 'CTX', 'R': outer, 'opts': opts, 'exit': 'normal',
+                      'steps': [{'k': 'RENDER', 'doc': p1}, {'k': 'NEST', 'R': inner, 'opts': iopts, 'docs': docs},
+                                {'k': 'RENDER', 'doc': p3}]},
+                     {'k': 'MD', 'R': outer, 'opts': {}, 'doc': p3},
+                     {'k': 'BARE', 'doc': p1},
+                     {'k': 'CTX', 'R': inner if inner != 'Scheme' else 'Html', 'opts': {}, 'exit': 'normal',
+                      'steps': [{'k': 'RENDER', 'doc': p2}]}]
+                out.append(('nested', h))
+    return out
+
+
 def systematic_count(tier, seed):
     return len(fault_variants(tier, seed)) * len(MODES) * len(D.SENTINELS)
 
@@ -287,6 +362,7 @@ def random_history(rng, tier, fault_free=False, extra_docs=None):
     p_fault = rng.choice([0.1, 0.25, 0.5]) if kinds else 0.0
     p_add = rng.choice([0.0, 0.15, 0.35])
     use_scheme = rng.random() < 0.3
+    p_nest = 0.08 if rng.random() < 0.25 else 0.0
     early_fault = bool(kinds) and rng.random() < 0.34
     max_blocks = 40 if thorough and rng.random() < 0.15 else 12
     n_blocks = rng.randint(2, max_blocks)
@@ -341,6 +417,12 @@ def random_history(rng, tier, fault_free=False, extra_docs=None):
                         hint = list(_SENTINEL_FOR[kind])
                         last_fault = True
                         continue
+                if p_nest and rng.random() < p_nest:
+                    inner = (W.RENDERER_IDS + ['Scheme'])[rng.randrange(len(W.RENDERER_IDS) + 1)]
+                    steps.append({'k': 'NEST', 'R': inner,
+                                  'opts': {} if inner == 'Scheme' else W.OPTIONS[inner][rng.randrange(len(W.OPTIONS[inner]))],
+                                  'docs': ['(+ 1 2)'] if inner == 'Scheme' else [doc() for _ in range(rng.randint(0, 2))]})
+                    continue
                 if y < p_fault + p_add:
                     if rng.random() < 0.6:
                         steps.append({'k': 'ADD', 'tok': W.BENIGN_SPAN[rng.randrange(len(W.BENIGN_SPAN))],
@@ -353,7 +435,10 @@ def random_history(rng, tier, fault_free=False, extra_docs=None):
                     if rng.random() < 0.7:
                         steps.append({'k': 'RENDER', 'doc': D.PROBES['custom']})
                     continue
-                steps.append({'k': 'RENDER', 'doc': doc()})
+                steps.append({'k': 'RENDER', 'doc': doc() if rid != 'Toc' or rng.random() < 0.6 else
+                              D.PROBES[('toc_refs', 'toc_doc', 'headings')[rng.randrange(3)]]})
+                if rid == 'Toc' and rng.random() < 0.4:
+                    steps.append({'k': 'TOC'})
             exit_mode = 'propagate' if last_fault and rng.random() < 0.4 else 'normal'
             history.append({'k': 'CTX', 'R': rid, 'opts': opts, 'exit': exit_mode, 'steps': steps})
     return history
